@@ -603,6 +603,14 @@ func (t *T) Context() context.Context {
 		// while we were waiting for the lock.
 		return t.ctx
 	}
+	if t.cleaning.Load() {
+		// Cleanup has started (and has already canceled and cleared the context)
+		// while we were waiting for the lock: a context created now
+		// would stay live after the property function has exited.
+		ctx, cancel := context.WithCancel(context.Background())
+		cancel()
+		return ctx
+	}
 
 	// Use the testing.TB's context as the starting point if available,
 	// and the Background context if not.
